@@ -9,17 +9,34 @@
 
 /* ---- http_parser contract stub: may report the URL (once) and then parse all or only a prefix of the line */
 static int parser_mode;   /* 0: url = target, whole line ok; 1: url = target, then syntax error in the rest of the line;
-                             2: syntax error before the url; 3: url = other path (callback refuses) */
+                             2: syntax error before the url; 3: url = other path (callback refuses);
+                             4: the chunk holds a start line ended by a bare LF (which http_parser tolerates) and a header line behind it:
+                                the parser goes on to the header callbacks inside the same call */
 static const char TARGET[] = "/api/jet/";
 static const char OTHER[] = "/index.html";
+static int on_url(http_parser *parser, const char *at, size_t length);      /* http_connection.c, included below */
 size_t http_parser_execute(http_parser *parser, const http_parser_settings *settings, const char *data, size_t len)
 {
 	(void)data;
 	parser->method = HTTP_GET;
 	if (parser_mode == 2) return len - 1;
 	const char *url = parser_mode == 3 ? OTHER : TARGET;
-	int r = settings->on_url(parser, url, strlen(url));
+	/* direct calls guarded by pointer comparisons: an indirect call makes CBMC explore every address-taken function of that type */
+	__CPROVER_assume(settings->on_url == on_url);
+	int r = on_url(parser, url, strlen(url));
 	if (r != 0) return len - 1;              /* a callback error stops the parser */
+	if (parser_mode == 4) {
+		static const char hf[] = "Sec-WebSocket-Version", hv[] = "13";
+		/* (direct calls after a pointer comparison: an indirect call here makes CBMC explore every type-compatible function) */
+		if (settings->on_header_field == websocket_upgrade_on_header_field) {
+			/* the callbacks work on the handler's object (parser->data): running them before it exists is a NULL dereference in the real parser run */
+			CHECK(parser->data != 0, "C06.header_callbacks_never_run_before_the_handlers_object_exists");
+			if (parser->data != 0) {
+				if (websocket_upgrade_on_header_field(parser, hf, sizeof(hf) - 1) != 0) return len - 1;
+				if (settings->on_header_value == websocket_upgrade_on_header_value && websocket_upgrade_on_header_value(parser, hv, sizeof(hv) - 1) != 0) return len - 1;
+			}
+		}
+	}
 	return parser_mode == 1 ? len - 1 : len;
 }
 void http_parser_url_init(struct http_parser_url *u) { u->field_set = 0; }
@@ -64,7 +81,12 @@ void harness_request_line(void)
 	__CPROVER_assume(r == 0);
 	int peers_before = get_number_of_peers();
 	parser_mode = PARSER_MODE;
+#if PARSER_MODE == 4
+	static uint8_t line[8] = "GET /\nA\r";          /* a bare LF inside the chunk that ends with the first CRLF (last byte below) */
+	line[7] = '\n'; line[6] = '\r'; line[5] = '\n';
+#else
 	static uint8_t line[8] = "GET /x\r\n";
+#endif
 	enum bs_read_callback_return rc = read_start_line(c, line, 8);
 	if (rc == BS_CLOSED) {
 		CHECK(conn_closed, "C13.refused_exchange_closes_the_connection");
